@@ -190,7 +190,7 @@ func TestC11Rapid(t *testing.T) {
 		repeatSteps(rt, 50, func(i int) {
 			if i == bulkAt && len(w.ids) > 0 {
 				// a bridge whose log is far longer than one page of a paginated read
-				w.bulkPropose(rt, w.bridges[w.ids[0]], rapid.SampledFrom([]int{101, 120, 140, 257, 300}).Draw(rt, "bulkN"))
+				w.bulkPropose(rt, w.bridges[w.ids[0]], rapid.SampledFrom([]int{101, 120, 140, 257, 300, 257, 300, 1030}).Draw(rt, "bulkN"))
 				c.Class("bridge-with-more-than-100-outputs")
 				if err := c11Log(w); err != nil {
 					rt.Fatalf("C11 violated after the bulk proposals: %v\nhistory:\n%s", err, w.history())
